@@ -36,6 +36,9 @@ def run(ctx):
     ctx.rule("R02-8", "statuses can be collected at all: main gives SIGCHLD an explicit disposition (SIG_DFL or the handler) "
                       "before anything runs a command - an inherited SIG_IGN makes the kernel reap children itself, "
                       "waitpid() fails with ECHILD and every status reads 0 (bin crate)")
+    ctx.rule("R02-9", "every stage runs with the default signal dispositions: a signal the shell sets to SIG_IGN anywhere is "
+                      "reset to SIG_DFL in the child before exec on every path (an ignored SIGPIPE keeps an upstream "
+                      "writer alive after its reader has left, and the pipeline never finishes)")
     ctx.rule("R02-7", "wait_fg_job identifies the stages by pid, not by process group: its waitpid target is -1 (or a pid "
                       "from `pids`); membership is decided against `pids`, so a stage that changes its group is still "
                       "awaited")
@@ -89,6 +92,7 @@ def run(ctx):
             sigchld_rule(ctx, crate, "R02-8")
         wait_fg_rules(ctx, crate, wj)
         status_const_rule(ctx, crate)
+    inherited_dispositions_rule(ctx, "R02-9")
 
 
 def is_gt0(atom, val, of=None):
@@ -461,3 +465,70 @@ def sigchld_rule(ctx, crate, rule):
                key="%s|main|sigchld-disposition|%s" % (rule, name), where=b.loc(bb), crate=crate.kind,
                detail=None if ok else "started by a parent that ignores SIGCHLD (some daemons, `trap '' CHLD`, Python with "
                "SIGCHLD ignored), the shell reports status 0 for every command: `false && echo x` prints x")
+
+
+SIGNAMES = {1: "SIGHUP", 2: "SIGINT", 3: "SIGQUIT", 13: "SIGPIPE", 15: "SIGTERM", 17: "SIGCHLD", 18: "SIGCONT", 20: "SIGTSTP",
+            21: "SIGTTIN", 22: "SIGTTOU", 28: "SIGWINCH"}
+
+
+def _signal_sets(b):
+    """[(bb, signal number, 'ign' | 'dfl' | 'other')] for libc::signal / nix signal calls with constant arguments"""
+    out = []
+    for bb, t, c in b.calls():
+        if last_seg(c) != "signal" or not ("libc" in c or "nix" in c):
+            continue
+        a = [b.expand_vars(strip_sites(x)) for x in b.call_args(bb)]
+        if len(a) != 2:
+            continue
+        sig = mir.const_int(a[0])
+        h = mir.const_int(a[1])
+        r = render(a[1])
+        kind = "ign" if (h == 1 or "SigIgn" in r) else "dfl" if (h == 0 or "SigDfl" in r) else "other"
+        if sig is None:
+            for k, v in SIGNAMES.items():
+                if v in render(a[0]):
+                    sig = k
+        out.append((bb, sig, kind))
+    return out
+
+
+def inherited_dispositions_rule(ctx, rule):
+    """a disposition of `ignore` survives execve: every signal the shell ignores (anywhere, in either crate) is set back
+    to SIG_DFL in the child between fork and exec, on every path"""
+    ignored = {}
+    for crate in ctx.crates:
+        for b in crate.fns():
+            for bb, sig, kind in _signal_sets(b):
+                if kind == "ign":
+                    ignored.setdefault(sig, []).append("%s (%s)" % (b.path, crate.kind))
+    if not ctx.require(len(ignored) >= 2, rule, "%s|ignored-set" % rule,
+                       "expected the shell to ignore at least SIGTSTP and SIGQUIT, found %s" % sorted(ignored)):
+        return
+    for crate in ctx.crates:
+        b = crate.fn("core::run_single_program")
+        if b is None:
+            continue
+        entry, child = None, set()
+        for bb in sorted(b.reachable):
+            for tgt, atom, val in b.switch_edges(bb):
+                if atom[0] == "discr" and val == "Child" and any(
+                        x[0] == "call" and last_seg(x[1]) == "fork" for x in mir.subexprs(atom)):
+                    entry, child = tgt, edge_dominated(b, bb, tgt)
+        if not ctx.require(entry is not None, rule, "%s|%s|child" % (rule, crate.kind), "Child arm of fork not found", b.path):
+            continue
+        execs = {bb for bb, t, c in b.calls() if bb in child and last_seg(c) in ("execve", "execvp", "execv", "execvpe")}
+        if not ctx.require(bool(execs), rule, "%s|%s|exec" % (rule, crate.kind), "no exec in the child region", b.path):
+            continue
+        resets = {}
+        for bb, sig, kind in _signal_sets(b):
+            if bb in child and kind == "dfl":
+                resets.setdefault(sig, set()).add(bb)
+        for sig in sorted(ignored, key=lambda x: (x is None, x)):
+            name = SIGNAMES.get(sig, "signal %s" % sig)
+            ok = sig in resets and flow.must_pass(b, entry, resets[sig], execs)
+            ctx.ob(rule, b.path, "%s (ignored by the shell in %s) is back to SIG_DFL in the child before every exec" %
+                   (name, ", ".join(sorted(set(ignored[sig])))[:80]), ok,
+                   key="%s|%s|child-resets|%s" % (rule, b.path, name), crate=crate.kind, where=b.loc(entry),
+                   detail=None if ok else "an ignored disposition is inherited through fork and execve: the program never "
+                   "receives %s (a writer never dies of SIGPIPE when its reader leaves and the pipeline does not end; "
+                   "Ctrl-Z / Ctrl-\\ do nothing to the job)" % name)
